@@ -665,12 +665,16 @@ theorem resolver_refines_den_mappedpipes_checked (P : Program) (nm : List String
 
 /-- Specialising a resolved expression to fork `k` of a mapped call (`BindingPath` with a known fork
 index) is evaluating it in that fork — for every store that reads fork assignments through their
-lookups — and keeps it well typed. -/
+lookups — and keeps it well typed.  (`HasTyR` now admits the `merge` nodes of array-mode map calls of
+run-time size — they stay merges, evaluated in that fork; `hnm`: the expression contains no merge
+over `c` itself, which the outputs of `c`'s callee never do: for such a merge the compiler returns
+the merged value of that fork instead.) -/
 theorem specialise_to_fork_sound (st : StructTable) (hst : StructsOk st) (F : Nat) (ρ : Store)
-    (hρ : StoreExt ρ) (c : String) (k : Nat) (e : RExp) (t : Ty) (f : ForkAssign) (h : HasTyR st t e) :
+    (hρ : StoreExt ρ) (c : String) (k : Nat) (e : RExp) (t : Ty) (f : ForkAssign) (h : HasTyR st t e)
+    (hnm : noMergeOf c e = true) :
     evalRT st F ρ f t (pushFork c (.i k) e) = evalRT st F ρ (fset f c (.i k)) t e ∧
     HasTyR st t (pushFork c (.i k) e) :=
-  pushFork_evalRT st hst F ρ hρ c k e t f h
+  pushFork_evalRT st hst F ρ hρ c k e t f h hnm
 
 /-- The run-time phase depends on a fork assignment only through its lookups (the order in which
 the roots were bound does not matter). -/
